@@ -99,3 +99,7 @@ mod parser {
         })
     }
 }
+
+// verification hook (compiled only under `cargo kani`, see /verif/MANIFEST.json hooks)
+#[cfg(kani)]
+include!(concat!(env!("VERIF_KANI_INC"), "/s3s_sig_v4_amz_date.rs"));
